@@ -260,9 +260,10 @@ end
 /-- `DecisionEvaluator::evaluate`, `BusinessKnowledgeModelEvaluator::evaluate`,
 `DecisionServiceEvaluator::evaluate`: `(id, input data, output context) ↦` the output context
 afterwards (and, for decisions and services, the name of the output variable — `None` when
-no evaluator is registered under the id). -/
+no evaluator is registered under the id).  A decision additionally receives (second context)
+the values of the input decisions of the enclosing decision service (`decision.rs:73-86`). -/
 structure Graph where
-  decision : String → Ctx → Ctx → Outcome (Option String × Ctx)
+  decision : String → Ctx → Ctx → Ctx → Outcome (Option String × Ctx)
   bkm : String → Ctx → Ctx → Outcome Ctx
   service : String → Ctx → Ctx → Outcome (Option String × Ctx)
 
@@ -353,35 +354,31 @@ def callBkm (g : Drg) (prev : Graph) (id : String) (input c : Ctx) : Outcome Ctx
   | none => .ok c
 
 /-- `decision_evaluator.evaluate(id, …)` -/
-def callDecision (g : Drg) (prev : Graph) (id : String) (input c : Ctx) : Outcome (Option String × Ctx) :=
+def callDecision (g : Drg) (prev : Graph) (id : String) (input sup c : Ctx) : Outcome (Option String × Ctx) :=
   match g.findDecision id with
-  | some _ => prev.decision id input c
+  | some _ => prev.decision id input sup c
   | none => .ok (none, c)
 
-/-- `decision_service_evaluator.evaluate(id, …)` -/
-def callService (g : Drg) (prev : Graph) (id : String) (input c : Ctx) : Outcome (Option String × Ctx) :=
-  match g.findService id with
-  | some _ => prev.service id input c
-  | none => .ok (none, c)
-
-/-- The decision closure (`decision.rs:139-190`). -/
-def decisionClosure (g : Drg) (env : Env) (prev : Graph) (d : Decision) (input out : Ctx) :
+/-- The decision closure (`decision.rs:150-207`); `sup`: the values of the input decisions of
+the enclosing decision service (empty when the decision is invoked by name). -/
+def decisionClosure (g : Drg) (env : Env) (prev : Graph) (d : Decision) (input sup out : Ctx) :
     Outcome (Option String × Ctx) :=
-  -- required knowledge as values from business knowledge models (`decision.rs:149-156`)
+  -- required knowledge as values from business knowledge models
   match foldCtx (fun id c => callBkm g prev id input c) d.reqKnowledge [] with
   | .ok k1 =>
-    -- required knowledge as decision service function definitions (`decision.rs:158-160`)
+    -- required knowledge as decision service function definitions
     let k2 := g.serviceFns d.reqKnowledge k1
-    -- required decisions (`decision.rs:162-164`)
-    match foldCtx (fun id c => dropName (callDecision g prev id input c)) d.reqDecisions k2 with
+    -- required decisions (they receive the same input data and input decisions)
+    match foldCtx (fun id c => dropName (callDecision g prev id input sup c)) d.reqDecisions k2 with
     | .ok k3 =>
-      -- "values from required knowledge may be overridden by input data" (`decision.rs:166`)
-      let k4 := Ctx.overwrite k3 input
-      -- required inputs through the typed variable evaluators (`decision.rs:168-174`)
+      -- "values from required decisions are overridden by the input decisions of the enclosing
+      -- decision service": `required_knowledge_ctx.overwrite(input_decisions_ctx)`
+      let k4 := Ctx.overwrite k3 sup
+      -- required inputs through the typed variable evaluators
       let inputs := g.typedInputs d.reqInputs input []
-      -- `required_input_ctx.zip(&required_knowledge_ctx)` (`decision.rs:175`)
+      -- `required_input_ctx.zip(&required_knowledge_ctx)`
       let ctx := Ctx.zip inputs k4
-      -- the logic in a fresh scope, coerced, stored under the output variable (`decision.rs:177-180`)
+      -- the logic in a fresh scope, coerced, stored under the output variable
       match evalBoxed env d.logic [ctx] with
       | .ok (v, _) => .ok (some d.var, Ctx.set out d.var (Value.coerced d.ty.ftype v))
       | .panic p => .panic p
@@ -391,42 +388,48 @@ def decisionClosure (g : Drg) (env : Env) (prev : Graph) (d : Decision) (input o
   | .panic p => .panic p
   | .diverge => .diverge
 
-/-- One knowledge requirement of a knowledge model (`business_knowledge_model.rs:308-312`):
-"call either business knowledge model or decision service, not both" — both are called. -/
+/-- One knowledge requirement of a knowledge model (`business_knowledge_model.rs:313-317`):
+"call either business knowledge model or decision service, not both" — both are called: the
+knowledge model's closure, then `evaluate_as_function_definition` for a decision service. -/
 def bkmRequirement (g : Drg) (prev : Graph) (input : Ctx) (id : String) (c : Ctx) : Outcome Ctx :=
   match callBkm g prev id input c with
-  | .ok c1 => dropName (callService g prev id input c1)
+  | .ok c1 => .ok (g.serviceFns [id] c1)
   | .panic p => .panic p
   | .diverge => .diverge
 
-/-- The knowledge model closure (`business_knowledge_model.rs:302-318`): every requirement is
-evaluated as a knowledge model *and* as a decision service (`evaluate`, not
-`evaluate_as_function_definition`: the service is **evaluated** on the input data and its
-value stored), then the function value is stored. -/
+/-- The knowledge model closure (`business_knowledge_model.rs:307-322`): every requirement is
+evaluated as a knowledge model and bound as a decision service function, then the function
+value is stored. -/
 def bkmClosure (g : Drg) (prev : Graph) (b : Bkm) (input out : Ctx) : Outcome Ctx :=
   match foldCtx (bkmRequirement g prev input) b.reqKnowledge out with
   | .ok out1 => .ok (Ctx.set out1 b.var (.fn b.params b.body b.ty.ftype))
   | .panic p => .panic p
   | .diverge => .diverge
 
-/-- `evaluated_input_data` of the decision service closure (`decision_service.rs:139-159`):
+/-- `input_decision_values` of the decision service closure (`decision_service.rs:158-171`):
 the typed values of the input decisions' variables taken from the evaluated input decisions,
-then — unconditionally — from the provided input data, then the required inputs. -/
-def serviceInputs (g : Drg) (s : Service) (inputDecisionResults input : Ctx) : Ctx :=
+then — unconditionally — from the provided input data. -/
+def serviceInputDecisions (g : Drg) (s : Service) (inputDecisionResults input : Ctx) : Ctx :=
   let vars := g.inputDecisionVars s
   let e1 := vars.foldl (fun c v => Ctx.set c v.1 (v.2.check v.1 inputDecisionResults)) []
-  let e2 := vars.foldl (fun c v => Ctx.set c v.1 (v.2.check v.1 input)) e1
-  g.typedInputs s.inputData input e2
+  vars.foldl (fun c v => Ctx.set c v.1 (v.2.check v.1 input)) e1
+
+/-- `evaluated_input_data` (`decision_service.rs:158-177`): these, then the required inputs. -/
+def serviceInputs (g : Drg) (s : Service) (inputDecisionResults input : Ctx) : Ctx :=
+  g.typedInputs s.inputData input (g.serviceInputDecisions s inputDecisionResults input)
 
 /-- The decision service closure (`decision_service.rs:128-197`). -/
 def serviceClosure (g : Drg) (prev : Graph) (s : Service) (input out : Ctx) :
     Outcome (Option String × Ctx) :=
-  match foldCtx (fun id c => dropName (callDecision g prev id input c)) s.inputDecisions [] with
+  -- the input decisions are evaluated on the input data (outside any decision service)
+  match foldCtx (fun id c => dropName (callDecision g prev id input [] c)) s.inputDecisions [] with
   | .ok results =>
     let evaluatedInput := g.serviceInputs s results input
-    match foldCtx (fun id c => dropName (callDecision g prev id evaluatedInput c)) s.encapsulated [] with
+    -- only the values of the input decisions replace required decisions inside the service
+    let sup := g.serviceInputDecisions s results input
+    match foldCtx (fun id c => dropName (callDecision g prev id evaluatedInput sup c)) s.encapsulated [] with
     | .ok c1 =>
-      match outputLoop (fun id c => callDecision g prev id evaluatedInput c) s.output [] c1 with
+      match outputLoop (fun id c => callDecision g prev id evaluatedInput sup c) s.output [] c1 with
       | .ok (names, c2) => .ok (some s.var, serviceResult s.ty.ftype names c2 s.var out)
       | .panic p => .panic p
       | .diverge => .diverge
@@ -438,9 +441,9 @@ def serviceClosure (g : Drg) (prev : Graph) (s : Service) (input out : Ctx) :
 /-- One level of closures over the registries `prev`; an id without an evaluator is skipped
 (`self.evaluators.get(id)` is `None`). -/
 def graphStep (g : Drg) (env : Env) (prev : Graph) : Graph where
-  decision := fun id input out =>
+  decision := fun id input sup out =>
     match g.findDecision id with
-    | some d => decisionClosure g env prev d input out
+    | some d => decisionClosure g env prev d input sup out
     | none => .ok (none, out)
   bkm := fun id input out =>
     match g.findBkm id with
@@ -453,7 +456,7 @@ def graphStep (g : Drg) (env : Env) (prev : Graph) : Graph where
 
 /-- The registries that give up (the requirement edges were followed too deep). -/
 def divergeGraph : Graph where
-  decision := fun _ _ _ => .diverge
+  decision := fun _ _ _ _ => .diverge
   bkm := fun _ _ _ => .diverge
   service := fun _ _ _ => .diverge
 
@@ -562,7 +565,7 @@ def evalBkmInvocable (l : Level) (gf : Nat) (id var : String) (input : Ctx) : Ou
   | .diverge => .diverge
 
 def evalDecision (base : Env) (g : Drg) (ff gf : Nat) (id : String) (input : Ctx) : Outcome Value :=
-  namedResult (((level base g gf ff).graph gf).decision id input [])
+  namedResult (((level base g gf ff).graph gf).decision id input [] [])
 
 def evalService (base : Env) (g : Drg) (ff gf : Nat) (id : String) (input : Ctx) : Outcome Value :=
   namedResult (((level base g gf ff).graph gf).service id input [])
@@ -590,45 +593,31 @@ def serviceVarNames (g : Drg) (ids : List String) : List String :=
 def decisionVarNames (g : Drg) (ids : List String) : List String :=
   ids.filterMap (fun id => (g.findDecision id).map (fun d => d.var))
 
-/-- For every id: the names of input entries the closure registered under the id can read
-(`decision`, `bkm`, `service`), and the names a knowledge model closure can write into its
-output context (`bkmOut`). -/
+/-- For every id: the names of input entries the closure registered under the id can read. -/
 structure Deps where
   decision : String → List String
   bkm : String → List String
   service : String → List String
-  bkmOut : String → List String
 
 def Deps.bot : Deps where
   decision := fun _ => []
   bkm := fun _ => []
   service := fun _ => []
-  bkmOut := fun _ => []
 
-/-- The keys of `required_knowledge_ctx` of a decision (exposed to `overwrite`). -/
-def knowledgeNames (g : Drg) (p : Deps) (d : Decision) : List String :=
-  d.reqKnowledge.flatMap p.bkmOut ++ g.serviceVarNames d.reqKnowledge ++ g.decisionVarNames d.reqDecisions
-
-/-- One level of closures (`graphStep`) over registries that read / write `p`. -/
+/-- One level of closures (`graphStep`) over registries that read `p`. -/
 def depsStep (g : Drg) (p : Deps) : Deps where
   decision := fun id =>
     match g.findDecision id with
-    | some d =>
-      d.reqKnowledge.flatMap p.bkm ++ d.reqDecisions.flatMap p.decision ++ knowledgeNames g p d ++
-        g.inputNames d.reqInputs
+    | some d => d.reqKnowledge.flatMap p.bkm ++ d.reqDecisions.flatMap p.decision ++ g.inputNames d.reqInputs
     | none => []
   bkm := fun id =>
     match g.findBkm id with
-    | some b => b.reqKnowledge.flatMap (fun k => p.bkm k ++ p.service k)
+    | some b => b.reqKnowledge.flatMap p.bkm
     | none => []
   service := fun id =>
     match g.findService id with
     | some s =>
       s.inputDecisions.flatMap p.decision ++ g.decisionVarNames s.inputDecisions ++ g.inputNames s.inputData
-    | none => []
-  bkmOut := fun id =>
-    match g.findBkm id with
-    | some b => b.reqKnowledge.flatMap p.bkmOut ++ g.serviceVarNames b.reqKnowledge ++ [b.var]
     | none => []
 
 /-- `n` levels of requirement edges (as `graphAt`). -/
@@ -637,9 +626,9 @@ def depsAt (g : Drg) : Nat → Deps
   | n + 1 => depsStep g (depsAt g n)
 
 /-- `closureNames`: the names of input entries that can influence the invocable `name`
-(required inputs, the variables of required decisions / knowledge models / decision services
-— which input data override —, the formal parameters of an invoked knowledge model), within
-`n` levels of requirement edges. -/
+(the required inputs of the element and of the decisions it requires, the input data and the
+input decisions' variables of an invoked decision service, the formal parameters of an invoked
+knowledge model), within `n` levels of requirement edges. -/
 def closureNames (g : Drg) (n : Nat) (name : String) : List String :=
   match g.invocable name with
   | some (.decision id) => (depsAt g n).decision id
@@ -710,25 +699,74 @@ def computeRank (g : Drg) : Kind → String → Nat := heightAt g g.size
 no requirement cycle). -/
 def acyclic (g : Drg) : Bool := g.rankedBy g.computeRank
 
-/-! ## the hypotheses under which the code does what the property says -/
+/-! ## `check_requirements` (`model_evaluator.rs:54-98`): `ModelEvaluator::new` refuses cycles -/
 
-/-- The names of all variables of decisions, knowledge models and decision services. -/
-def varNames (g : Drg) : List String :=
-  g.decisions.map (fun d => d.var) ++ g.bkms.map (fun b => b.var) ++ g.services.map (fun s => s.var)
+/-- an element of some kind has the identifier -/
+def isKey (g : Drg) (id : String) : Bool :=
+  g.decisions.any (fun d => d.id == id) || g.bkms.any (fun b => b.id == id) || g.services.any (fun s => s.id == id)
 
-/-- No entry of the input data is named like the variable of a decision, knowledge model or
-decision service (otherwise `overwrite` replaces that element's value: finding F14). -/
-def inputsDisjointFromDecisionNames (g : Drg) (input : Ctx) : Bool :=
-  input.all (fun e => !(g.varNames.contains e.1))
+/-- the merged requirements of all elements with the identifier -/
+def requirementList (g : Drg) (id : String) : List String :=
+  (g.decisions.filter (fun d => d.id == id)).flatMap (fun d => d.reqDecisions ++ d.reqKnowledge) ++
+  (g.bkms.filter (fun b => b.id == id)).flatMap (fun b => b.reqKnowledge) ++
+  (g.services.filter (fun s => s.id == id)).flatMap (fun s => s.inputDecisions ++ s.encapsulated ++ s.output)
 
-/-- No input data element is named like such a variable (inside a decision service the input
-data entries would replace the value). -/
-def inputNamesSeparate (g : Drg) : Bool :=
-  g.inputs.all (fun i => !(g.varNames.contains i.name))
+/-- `requirements.get(id)`: the requirements followed while building and evaluating, of every
+element registered under the identifier — one map for decisions, knowledge models and decision
+services (`entry(id).or_default().extend(…)`: elements sharing an identifier are merged). -/
+def requirementsOf (g : Drg) (id : String) : Option (List String) :=
+  if g.isKey id then some (g.requirementList id) else none
 
-/-- No knowledge model requires a decision service (the code binds the service's *value*). -/
-def noBkmRequiresService (g : Drg) : Bool :=
-  g.bkms.all (fun b => b.reqKnowledge.all (fun k => (g.findService k).isNone))
+/-- the identifiers put into the map (with repetitions) -/
+def requirementIds (g : Drg) : List String :=
+  g.decisions.map (fun d => d.id) ++ g.bkms.map (fun b => b.id) ++ g.services.map (fun s => s.id)
+
+/-- the number of different strings in a list -/
+def distinctCount : List String → Nat
+  | [] => 0
+  | x :: xs => if xs.contains x then distinctCount xs else distinctCount xs + 1
+
+/-- `requirements.len()`: the number of keys of the map -/
+def requirementCount (g : Drg) : Nat := distinctCount g.requirementIds
+
+/-- `check_chain(id, requirements, length)` with `fuel = requirements.len() + 1 - length`: a chain
+of requirements longer than the number of elements is an error (`false`). -/
+def checkChain (g : Drg) : Nat → String → Bool
+  | fuel, id =>
+    match g.requirementsOf id with
+    | none => true
+    | some required =>
+      match fuel with
+      | 0 => false
+      | f + 1 => required.all (checkChain g f)
+
+/-- `check_requirements`: `true` = `Ok(())` (every key is checked; checking an identifier twice
+changes nothing). -/
+def checkRequirements (g : Drg) : Bool :=
+  g.requirementIds.all (checkChain g g.requirementCount)
+
+/-- The length of the longest chain of requirements below an identifier, to depth `fuel`. -/
+def chainDepth (g : Drg) : Nat → String → Nat
+  | fuel, id =>
+    match g.requirementsOf id with
+    | none => 0
+    | some required =>
+      match fuel with
+      | 0 => 0
+      | f + 1 => 1 + maxOf (required.map (chainDepth g f))
+
+/-- Every element is the one registered under its id (ids are unique within a kind, as in a
+valid document). -/
+def idsUnique (g : Drg) : Bool :=
+  g.decisions.all (fun d => match g.findDecision d.id with
+    | some d' => d'.reqKnowledge == d.reqKnowledge && d'.reqDecisions == d.reqDecisions
+    | none => false) &&
+  g.bkms.all (fun b => match g.findBkm b.id with
+    | some b' => b'.reqKnowledge == b.reqKnowledge
+    | none => false) &&
+  g.services.all (fun s => match g.findService s.id with
+    | some s' => s'.inputDecisions == s.inputDecisions && s'.encapsulated == s.encapsulated && s'.output == s.output
+    | none => false)
 
 /-- Two knowledge models registered under the same id (which a valid document does not have)
 at least agree on the name of their variable: `invocable_by_name` records the variable of the
